@@ -435,3 +435,50 @@ def shrink_quorum(case):
     for it in case["seq"]:
         nb = [[[x for x in b if x != it] for b in run] for run in bs]
         yield with_harness_fields(dict(case, seq=[x for x in case["seq"] if x != it], batchings=nb))
+
+
+# ============================================================================ C40 Paxos components
+
+
+def gen_px(rng, tier):
+    if rng.chance(1, 3):
+        nt = rng.range(1, 5)
+        ticks, hi = [], -1
+        for _ in range(nt):
+            mx = None
+            if rng.chance(1, 4):
+                mx = max(hi, 0) + rng.below(3) if not rng.chance(1, 8) else rng.below(4)
+            ps = [rng.range(1, 99) for _ in range(rng.below(4))]
+            base = (mx + 1) if mx is not None else max(hi + 1, 0)
+            if ps:
+                hi = max(hi, base + len(ps) - 1)
+            ticks.append({"max": mx, "payloads": ps})
+        return {"k": "px_index", "ticks": ticks}
+    f = rng.choice([1, 1, 2])
+    nlogs = rng.choice([f + 1, f + 1, f + 1, 2 * f + 1, rng.range(1, 2 * f + 1)])
+    logs = []
+    for _ in range(nlogs):
+        entries = []
+        for s in range(rng.range(2, 6)):
+            if rng.chance(3, 5):
+                entries.append([s, [rng.range(1, 3), rng.below(3)], rng.choice([None, 1, 2, 2, 3])])
+        logs.append({"cp": rng.below(3) if rng.chance(1, 6) else None, "entries": entries})
+    return {"k": "px_recommit", "f": f, "ballot": [rng.range(3, 5), rng.below(3)], "logs": logs}
+
+
+def g_oN(x):
+    return "None" if x is None else "(Some %d)" % x
+
+
+def px_term(case, res):
+    if "panic" in res or "hang" in res or "crash" in res or "bad_case" in res or "garbled" in res:
+        return 3
+    if case["k"] == "px_index":
+        ticks = vlib.g_list(["(%s, %s)" % (g_oN(t["max"]), vlib.g_list(["%d" % p for p in t["payloads"]])) for t in case["ticks"]])
+        outs = vlib.g_list([vlib.g_list(["(%d, %d)" % (s, p) for s, p in o]) for o in res["ticks"]])
+        return "(PaxosCheck.chk_index %s %s)" % (ticks, outs)
+    logs = vlib.g_list(["(%s, %s)" % (g_oN(l["cp"]), vlib.g_list(["(%d, (%d, %d), %s)" % (e[0], e[1][0], e[1][1], g_oN(e[2])) for e in l["entries"]]))
+                        for l in case["logs"]])
+    out = vlib.g_list(["((%d, (%d, %d)), %s)" % (o[0][0], o[0][1][0], o[0][1][1], g_oN(o[1])) for o in res["recommit"]])
+    mx = g_oN(res["max_slot"][0]) if res["max_slot"] else "None"
+    return "(PaxosCheck.chk_recommit %d (%d, %d) %s %s %s)" % (case["f"], case["ballot"][0], case["ballot"][1], logs, out, mx)
